@@ -152,6 +152,8 @@ def run(ctx):
             if K.abnormal(r):
                 ctx.violation(K.raw_replay(c, "kafka Dissect did not return normally on a mutated conversation", "vh-kafka run"))
         K.report_K(ctx, "c06", kcases + muts, kres + mres)
+        if "Kafka/KafkaSpecEnc.v" not in failed and "gen/KafkaSpecSchemas.v" not in failed:
+            K.spec_encoder_tie(ctx, convs)
     else:
         ctx.broken.append("K_kafka: the model does not build; correspondence not run")
 
